@@ -334,6 +334,23 @@ func recC09(c *ctx) {
 			batchonly()
 			verify()
 		}
+		// Verify is a pure function of the entries: repeated without Reset, after BatchOnly, after further additions, with a
+		// well-formed entry whose signature is invalid among valid ones (and no malformed entry)
+		if h%4 == 0 || h%4 == 3 {
+			bv.Reset()
+			emit(vt.Ev{"op": "reset"})
+			via := r.Intn(3)
+			add(mk(0), via)
+			add(mk(3), via)
+			add(mk(0), via)
+			verify()
+			verify()
+			batchonly()
+			verify()
+			add(mk(0), via)
+			verify()
+			verify()
+		}
 		// an entry whose key is the previous entry's key plus trailing bytes, on the expanding and on the forced path
 		if h%4 == 1 || h%4 == 2 {
 			for _, extra := range []int{1, 8, 32} {
